@@ -34,11 +34,12 @@ type failure struct {
 }
 
 type node struct {
-	op   string  // constructor
+	op   string   // constructor
 	args []string // scalar arguments (already Coq syntax)
 	cnd  string
 	body []*node
-	has  bool // has cnd/body
+	els  []*node // IIfElse only
+	has  bool    // has cnd/body
 }
 
 type insertion struct {
@@ -47,13 +48,14 @@ type insertion struct {
 }
 
 type tr struct {
-	fset    *token.FileSet
-	file    *ast.File
-	decls   map[string]*ast.FuncDecl // methods of *gcpClientStream
-	watch   string                   // name of the spawned helper
-	inserts []insertion
+	fset     *token.FileSet
+	file     *ast.File
+	decls    map[string]*ast.FuncDecl // methods of *gcpClientStream
+	watch    string                   // name of the spawned helper
+	inserts  []insertion
 	inlining map[string]bool
-	yields  int
+	yields   int
+	nest     int // depth of if/for bodies being translated
 }
 
 func (t *tr) fail(p token.Pos, format string, a ...interface{}) {
@@ -62,14 +64,15 @@ func (t *tr) fail(p token.Pos, format string, a ...interface{}) {
 
 // per-function translation context
 type fctx struct {
-	recv   string
-	params []string
-	ctxVar string // local holding context.WithValue(...)
-	csVar  string // local holding the streamer's stream
-	errVar string // local err
-	name   string
-	void   bool
-	inlined bool
+	recv        string
+	params      []string
+	ctxVar      string // local holding context.WithValue(...)
+	csVar       string // local holding the streamer's stream
+	errVar      string // local err
+	name        string
+	void        bool
+	inlined     bool
+	deferUnlock bool // `defer cs.Unlock()` is pending: every return unlocks first
 }
 
 func isSel(e ast.Expr, path ...string) bool {
@@ -107,6 +110,44 @@ func (t *tr) yield(pos token.Pos, site string) {
 	t.yields++
 }
 
+// neg negates a condition term, cancelling a double negation.
+func neg(c string) string {
+	const pre = "(CNot "
+	if strings.HasPrefix(c, pre) && strings.HasSuffix(c, ")") {
+		// does the opening parenthesis of c close at its very end?
+		depth, whole := 0, true
+		for i, ch := range c {
+			if ch == '(' {
+				depth++
+			} else if ch == ')' {
+				depth--
+				if depth == 0 && i != len(c)-1 {
+					whole = false
+				}
+			}
+		}
+		if whole {
+			return c[len(pre) : len(c)-1]
+		}
+	}
+	return "(CNot " + c + ")"
+}
+
+// terminates: every path through the list ends the call (return or delegation)
+func terminates(ns []*node) bool {
+	if len(ns) == 0 {
+		return false
+	}
+	l := ns[len(ns)-1]
+	switch l.op {
+	case "IReturn", "IDelegate":
+		return true
+	case "IIfElse":
+		return terminates(l.body) && terminates(l.els)
+	}
+	return false
+}
+
 func (t *tr) cond(f *fctx, e ast.Expr) string {
 	e = unparen(e)
 	switch x := e.(type) {
@@ -120,7 +161,7 @@ func (t *tr) cond(f *fctx, e ast.Expr) string {
 		}
 	case *ast.UnaryExpr:
 		if x.Op == token.NOT {
-			return "(CNot " + t.cond(f, x.X) + ")"
+			return neg(t.cond(f, x.X))
 		}
 	case *ast.BinaryExpr:
 		switch x.Op {
@@ -282,18 +323,54 @@ func (t *tr) stmt(f *fctx, s ast.Stmt) []*node {
 		}
 		t.fail(x.Pos(), "unrecognised go statement")
 	case *ast.DeferStmt:
-		t.fail(x.Pos(), "defer is not supported")
+		// `defer cs.Unlock()`: every later return unlocks after its values are evaluated.  Supported for
+		// returns that do not delegate (a delegation would run with the mutex held across the call of the
+		// underlying stream - not the same behaviour, and not what the model's mutex discipline allows).
+		c := x.Call
+		if len(c.Args) == 0 && (isSel(c.Fun, f.recv, "Unlock") || isSel(c.Fun, f.recv, "Mutex", "Unlock")) && !f.inlined && !f.deferUnlock && t.nest == 0 {
+			f.deferUnlock = true
+			return nil
+		}
+		t.fail(x.Pos(), "this defer is not supported (only one `defer cs.Unlock()` directly in a method body)")
 	case *ast.IfStmt:
 		var out []*node
-		if x.Else != nil {
-			t.fail(x.Else.Pos(), "else branches are not supported")
-		}
 		if x.Init != nil {
 			out = append(out, t.stmt(f, x.Init)...)
 		}
 		c := t.cond(f, x.Cond)
-		out = append(out, &node{op: "IIf", cnd: c, body: t.block(f, x.Body.List), has: true})
-		return out
+		// local-variable bindings made in one branch must not leak into the other
+		saved := *f
+		t.nest++
+		a := t.block(f, x.Body.List)
+		t.nest--
+		afterA := *f
+		if x.Else == nil {
+			return append(out, &node{op: "IIf", cnd: c, body: a, has: true})
+		}
+		*f = saved
+		t.nest++
+		b := t.stmt(f, x.Else) // a block or another if statement
+		t.nest--
+		if f.ctxVar != afterA.ctxVar || f.csVar != afterA.csVar || f.errVar != afterA.errVar {
+			// what follows the statement would depend on which branch declared the variable
+			if !terminates(a) && !terminates(b) {
+				t.fail(x.Pos(), "the branches of this if/else bind different local variables")
+			}
+			if terminates(b) {
+				*f = afterA
+			}
+		}
+		// if C {A} else {B}; rest  ==  if C {A}; B; rest      when A ends the call
+		//                          ==  if !C {B}; A; rest     when B ends the call
+		switch {
+		case terminates(a):
+			out = append(out, &node{op: "IIf", cnd: c, body: a, has: true})
+			return append(out, b...)
+		case terminates(b):
+			out = append(out, &node{op: "IIf", cnd: neg(c), body: b, has: true})
+			return append(out, a...)
+		}
+		return append(out, &node{op: "IIfElse", cnd: c, body: a, els: b, has: true})
 	case *ast.ForStmt:
 		if x.Init != nil || x.Post != nil {
 			t.fail(x.Pos(), "only `for cond { ... }` loops are supported")
@@ -302,7 +379,10 @@ func (t *tr) stmt(f *fctx, s ast.Stmt) []*node {
 		if x.Cond != nil {
 			c = t.cond(f, x.Cond)
 		}
-		return []*node{{op: "IWhile", cnd: c, body: t.block(f, x.Body.List), has: true}}
+		t.nest++
+		body := t.block(f, x.Body.List)
+		t.nest--
+		return []*node{{op: "IWhile", cnd: c, body: body, has: true}}
 	case *ast.AssignStmt:
 		return t.assign(f, x)
 	case *ast.ReturnStmt:
@@ -429,6 +509,10 @@ func (t *tr) ret(f *fctx, x *ast.ReturnStmt) []*node {
 		if !f.void {
 			t.fail(x.Pos(), "bare return")
 		}
+		if f.deferUnlock {
+			t.yield(x.Pos(), "unlock")
+			return append(leaf("IUnlock"), leaf("IReturn", "RNil")...)
+		}
 		return leaf("IReturn", "RNil")
 	}
 	res := x.Results
@@ -443,17 +527,30 @@ func (t *tr) ret(f *fctx, x *ast.ReturnStmt) []*node {
 		t.fail(x.Pos(), "unrecognised return")
 	}
 	e := unparen(res[0])
+	// with a deferred Unlock the value is evaluated first, then the mutex is released
+	pre := []*node{}
+	if f.deferUnlock {
+		t.yield(x.Pos(), "unlock")
+		pre = leaf("IUnlock")
+	}
 	switch {
 	case isNil(e):
-		return leaf("IReturn", "RNil")
+		return append(pre, leaf("IReturn", "RNil")...)
 	case isIdent(e, f.errVar):
-		return leaf("IReturn", "RLocalErr")
+		return append(pre, leaf("IReturn", "RLocalErr")...)
 	case isSel(e, f.recv, "initStreamErr"):
+		if f.deferUnlock {
+			// read under the lock
+			return append(append(leaf("ILoadErr"), pre...), leaf("IReturn", "RLocalErr")...)
+		}
 		return leaf("IReturn", "RInitErr")
 	case isSel(e, f.recv, "ctx"):
-		return leaf("IReturn", "RCallCtx")
+		return append(pre, leaf("IReturn", "RCallCtx")...)
 	case t.isCtxErrValue(f, e):
-		return leaf("IReturn", "RCtxErr")
+		return append(pre, leaf("IReturn", "RCtxErr")...)
+	}
+	if f.deferUnlock {
+		t.fail(x.Pos(), "delegation under `defer cs.Unlock()`: the underlying stream would be called with the wrapper's mutex held")
 	}
 	if c, ok := e.(*ast.CallExpr); ok {
 		if sel, ok := c.Fun.(*ast.SelectorExpr); ok && isSel(sel.X, f.recv, "ClientStream") {
@@ -490,6 +587,9 @@ func coqList(ns []*node) string {
 }
 
 func coqNode(n *node) string {
+	if n.op == "IIfElse" {
+		return n.op + " " + n.cnd + " " + coqList(n.body) + " " + coqList(n.els)
+	}
 	if n.has {
 		return n.op + " " + n.cnd + " " + coqList(n.body)
 	}
@@ -506,6 +606,9 @@ func irList(ns []*node) string {
 		if n.has {
 			c := strings.NewReplacer("(", " ( ", ")", " ) ").Replace(n.cnd)
 			parts = append(parts, n.op, "{", c, "}", irList(n.body))
+			if n.op == "IIfElse" {
+				parts = append(parts, irList(n.els))
+			}
 		} else {
 			parts = append(parts, n.op)
 			parts = append(parts, n.args...)
